@@ -76,6 +76,7 @@ def replay(case, inputs, cand=None):
 
 
 META = {
+    "glue": ['groupby_lib/groupby/numba.py::_apply_cumulative', 'groupby_lib/groupby/numba.py::_apply_group_method_single_chunk', 'groupby_lib/groupby/numba.py::_apply_rolling', 'groupby_lib/groupby/numba.py::_build_target_for_groupby', 'groupby_lib/groupby/numba.py::_chunk_args_for_chunked_values', 'groupby_lib/groupby/numba.py::_chunk_args_for_unchunked_values', 'groupby_lib/groupby/numba.py::_chunk_groupby_args', 'groupby_lib/groupby/numba.py::_group_func_wrap', 'groupby_lib/groupby/numba.py::combine_chunk_results_for_factorized_key', 'groupby_lib/groupby/numba.py::cumcount', 'groupby_lib/groupby/numba.py::cummax', 'groupby_lib/groupby/numba.py::cummin', 'groupby_lib/groupby/numba.py::cumsum', 'groupby_lib/groupby/numba.py::group_count', 'groupby_lib/groupby/numba.py::group_mean', 'groupby_lib/groupby/numba.py::group_size', 'groupby_lib/groupby/numba.py::group_sum', 'groupby_lib/groupby/numba.py::rolling_diff', 'groupby_lib/groupby/numba.py::rolling_max', 'groupby_lib/groupby/numba.py::rolling_mean', 'groupby_lib/groupby/numba.py::rolling_min', 'groupby_lib/groupby/numba.py::rolling_shift', 'groupby_lib/groupby/numba.py::rolling_sum', 'groupby_lib/util.py::_cast_timestamps_to_ints', 'groupby_lib/util.py::_null_value_for_numpy_type', 'groupby_lib/util.py::check_data_inputs_aligned', 'groupby_lib/util.py::jit_is_null', 'groupby_lib/util.py::parallel_map'],
     "bounds": {"quick": {"N": 4, "G": 2, "W": [1, 2], "positions": "L <= 3"}, "thorough": {"N": 5, "G": 2, "W": [1, 2], "positions": "L <= 3"}},
     "enumerated": ["every boolean mask of the bound for the mask == filter-first relation (the filtered arrays have a data-dependent length)",
                    "slice bounds", "EMA code sequences", "operation, dtype, thread count"],
